@@ -246,6 +246,7 @@ class MpWriter(SegmentWriter):
                     for fname, text, docnum, weight, value in gen)
 
     def commit(self, mergetype=None, optimize=None, merge=None):
+        self._check_state()
         if self._added_sub:
             # If documents have been added to sub-writers, use the parallel
             # merge commit code
